@@ -290,7 +290,7 @@ func (p *Program) Anchors() (*anchors, []string) {
 				a.vmRun = fn
 			case len(ps) == 1 && isOpcodeType(ps[0]) && len(rs) == 1 && isErrorType(rs[0]):
 				a.binop = fn
-			case len(ps) >= 3 && isOpcodeType(ps[0]) && isObjectIface(ps[1]) && isObjectIface(ps[2]):
+			case len(ps) >= 3 && func() bool { _, _, _, _, _, ok := tableParams(fn.Signature); return ok }():
 				// (operator, left, right) — possibly followed by the operands'
 				// values when the caller has already converted them
 				a.optTables = append(a.optTables, fn)
